@@ -1,5 +1,7 @@
 import SaphyrVerif.Lemmas.C13_Emit
 import SaphyrVerif.Lemmas.C13_Lines
+import SaphyrVerif.Lemmas.C13_Safe
+import SaphyrVerif.Lemmas.C13_Compose
 import SaphyrVerif.Model.EmitQuote
 import SaphyrVerif.Lemmas.EmitPVal
 /-!
@@ -22,11 +24,19 @@ arbitrary nesting of
   and pairwise different as data, unit, newtype, tuple and struct variants (also without fields)
 
 under EVERY `indent_step ≥ 1` (since fix 995e25e the layout is right for every step), `compact_list_indent`
-on or off (fixes 8740963 fb15f4e), `empty_as_braces = true`, `quote_all = false`, `yaml_12 = false`,
-`tagged_enums = false` (any `min_fold_chars` / `folded_wrap_chars` / `prefer_block_scalars`), for every
-scalar-text function that satisfies the safe-leaf contract.
-Outside the proved fragment: scalar keys other than safe strings (null / bool / number keys), the
-presentation wrappers, strings outside the safe class (C12), the other option values, anchors.  The defect classes this property
+on or off (fixes 8740963 fb15f4e), `yaml_12` on or off (the prologue `%YAML 1.2` + `---`, then the same
+layout), `quote_all` on or off (string values, unit variants and the names of variants with data in
+single quotes; string keys stay plain), `tagged_enums` on or off (a unit variant is `!!Enum variant`),
+`empty_as_braces = true` (any `min_fold_chars` / `folded_wrap_chars` / `prefer_block_scalars`), for every
+scalar-text function that satisfies the safe-leaf contract — and, for the crate's OWN scalar-text functions
+(`implFns`), with the safe strings replaced by ARBITRARY strings (`emit_roundtrip_strings_partial`: the
+composition with C12 — every string as key / variant name, every string leaf that gets no block style;
+plain, single- or double-quoted as the crate decides), minus the YAML 1.1 boolean words `yaml_12` leaves
+plain (`yaml12_bool_word_counterexample`).  Both are instances of the general theorems over token
+contracts (`emit_roundtrip_contract`).  Note `implFns_not_safeContract`: the safe-leaf contract itself
+does not hold for the crate's functions (`infinity` is quoted since fix 1fdb06b).
+Outside the proved fragment: scalar keys other than strings (null / bool / number keys), the
+presentation wrappers, strings that get a block style (C12), `empty_as_braces = false`, anchors.  The defect classes this property
 found in tuple structs, tuple / struct variants, composite keys, `compact_list_indent` and
 `indent_step` 1 / ≥ 3 (now inside the proved fragment) are repaired (fixes f421f34 beca5d5 8740963 fb15f4e 6b2e131 995e25e): the former
 counterexample theorems are regression theorems below (`*_regression`: the repaired model output and
@@ -42,38 +52,147 @@ def C13_Full : Prop :=
   ∀ (o : Opts) (v : SVal) (t : List Char), o.indentStep ≥ 1 → emit o implFns v = .ok t → readDoc t = some (erase v)
 
 section
-variable {o : Opts} {f : ScalarFns}
+variable {o : Opts} {f : ScalarFns} {P : LeafPred} {T : Toks}
+
+/-! ## the general theorems: any class of strings whose tokens satisfy the contracts -/
+
+/-- (T, the emitter invariant, general form) For EVERY option vector with `indent_step ≥ 1` and
+`empty_as_braces`, every class `P` of strings and token functions `T` for which the scalar-text functions
+satisfy the write contract (a string of the class is written as the one token `T` gives for it, no block
+style): the state machine writes exactly the prologue and the lines of the flag-free layout function over
+the tokens `T`. -/
+theorem emit_layout_contract (ho : FragOpts o) (hw : WriteContract o f P T) (v : SVal) (hv : inFragP P v = true) :
+    emit o f v = .ok (prologue o ++ renderLines (layRoot T o.indentStep o.compactListIndent v)) :=
+  emit_eq_layout ho hw v hv
+
+/-- (T, general form) … and when the tokens also satisfy the read contract (the reference reader takes the
+token of a string for that string), the text reads back as exactly the value. -/
+theorem emit_roundtrip_contract (ho : FragOpts o) (hw : WriteContract o f P T) (hr : ReadContract P T) (v : SVal)
+    (hv : inFragP P v = true) : ∃ t, emit o f v = .ok t ∧ readDoc t = some (erase v) :=
+  ⟨_, emit_eq_layout ho hw v hv, read_layout_pro hr o ho.indent v hv⟩
+
+/-- (T, general form) one document: the lines of the text are the prologue lines followed by the layout
+lines, and no layout line is a document marker, a directive, blank or a comment. -/
+theorem emit_single_document_contract (ho : FragOpts o) (hw : WriteContract o f P T) (hr : ReadContract P T) (v : SVal)
+    (hv : inFragP P v = true) :
+    ∃ t, emit o f v = .ok t ∧ toLines t = prologueLines o ++ layRoot T o.indentStep o.compactListIndent v ∧
+      ∀ l ∈ layRoot T o.indentStep o.compactListIndent v, isDocMarker l "---".toList = false ∧
+        isDocMarker l "...".toList = false ∧ l.text.head? ≠ some '%' ∧ l.isSkippable = false := by
+  have hg := (root_lines (cp := o.compactListIndent) hr ho.indent v hv).1
+  refine ⟨_, emit_eq_layout ho hw v hv, ?_, ?_⟩
+  · unfold prologue prologueLines
+    cases o.yaml12
+    · simpa using toLines_render _ hg
+    · simpa using toLines_prologue _ hg
+  · intro l hl
+    have h := hg l hl
+    exact ⟨(goodLine_not_marker h).1, (goodLine_not_marker h).2, goodLine_not_pct h, goodLine_notSkippable h⟩
+
+/-! ## the safe leaf class -/
 
 /-- (T, the emitter invariant) On the fragment the state machine — whatever the layout flags do
-on the way — writes exactly the lines of the flag-free layout function, for every `indent_step = k ≥ 1`:
+on the way — writes exactly the prologue (`%YAML 1.2` + `---` under `yaml_12`, nothing otherwise) and
+the lines of the flag-free layout function, for every `indent_step = k ≥ 1`:
 a collection after `key:` (keys at column `c`) on the following lines at column `c + k` (a sequence
 under `compact_list_indent` inside a mapping: at column `c`), the first
 entry of a collection after `- ` (dash at column `c`) on the dash line and all its entries at column
-`c + 2`, `Variant:` after `key:` on the next line at column `c + k` and its payload under it. -/
+`c + 2`, `Variant:` after `key:` on the next line at column `c + k` and its payload under it.  The
+tokens (`safeToks o`): a safe string is written as itself, under `quote_all` in single quotes where it is
+a value or the name of a variant with data (keys stay plain), a unit variant under `tagged_enums` as
+`!!Enum variant`. -/
 theorem emit_layout_partial (ho : FragOpts o) (hf : SafeContract f) (v : SVal)
-    (hv : inFrag o.foldedWrapCol v = true) : emit o f v = .ok (renderLines (layRoot o.indentStep o.compactListIndent v)) :=
-  emit_eq_layout ho hf v hv
+    (hv : inFrag o v = true) :
+    emit o f v = .ok (prologue o ++ renderLines (layRoot (safeToks o) o.indentStep o.compactListIndent v)) :=
+  emit_eq_layout ho (safe_write hf) v hv
 
 /-- (T) C13 on the fragment: serialization succeeds and the text reads back as exactly the value. -/
 theorem emit_roundtrip_partial (ho : FragOpts o) (hf : SafeContract f) (v : SVal)
-    (hv : inFrag o.foldedWrapCol v = true) : ∃ t, emit o f v = .ok t ∧ readDoc t = some (erase v) :=
-  ⟨_, emit_eq_layout ho hf v hv, read_layout ho.indent v hv⟩
+    (hv : inFrag o v = true) : ∃ t, emit o f v = .ok t ∧ readDoc t = some (erase v) :=
+  emit_roundtrip_contract ho (safe_write hf) (safe_read o) v hv
 
-/-- (T) C13 "one document": on the fragment no line of the output is a document marker (`---` / `...`
-at column 0) or a directive (no prologue at all, since `yaml_12 = false`), no line is blank or a
-comment, and the lines of the text are exactly the layout lines. -/
+/-- (T) C13 "one document": on the fragment the lines of the text are exactly the prologue lines
+(`%YAML 1.2`, `---` under `yaml_12`: one directive and one document start marker, before everything
+else; no prologue at all otherwise) followed by the layout lines, and no layout line is a document
+marker (`---` / `...` at column 0), a directive, blank or a comment. -/
 theorem emit_single_document (ho : FragOpts o) (hf : SafeContract f) (v : SVal)
-    (hv : inFrag o.foldedWrapCol v = true) :
-    ∃ t, emit o f v = .ok t ∧ toLines t = layRoot o.indentStep o.compactListIndent v ∧
+    (hv : inFrag o v = true) :
+    ∃ t, emit o f v = .ok t ∧ toLines t = prologueLines o ++ layRoot (safeToks o) o.indentStep o.compactListIndent v ∧
+      ∀ l ∈ layRoot (safeToks o) o.indentStep o.compactListIndent v, isDocMarker l "---".toList = false ∧
+        isDocMarker l "...".toList = false ∧ l.text.head? ≠ some '%' ∧ l.isSkippable = false :=
+  emit_single_document_contract ho (safe_write hf) (safe_read o) v hv
+
+/-- the statements for `quote_all = false`, `yaml_12 = false` in their original form: the layout over the
+plain tokens, no line of the output at all is a document marker or a directive -/
+theorem emit_layout_plain (ho : FragOpts o) (hq : o.quoteAll = false) (hy : o.yaml12 = false) (ht : o.taggedEnums = false)
+    (hf : SafeContract f) (v : SVal) (hv : inFrag o v = true) :
+    emit o f v = .ok (renderLines (layRoot plainToks o.indentStep o.compactListIndent v)) := by
+  simpa [prologue, hy, safeToks_plain hq ht] using emit_layout_partial ho hf v hv
+
+theorem emit_single_document_plain (ho : FragOpts o) (hq : o.quoteAll = false) (hy : o.yaml12 = false)
+    (ht : o.taggedEnums = false) (hf : SafeContract f) (v : SVal) (hv : inFrag o v = true) :
+    ∃ t, emit o f v = .ok t ∧ toLines t = layRoot plainToks o.indentStep o.compactListIndent v ∧
       ∀ l ∈ toLines t, isDocMarker l "---".toList = false ∧ isDocMarker l "...".toList = false ∧
         l.text.head? ≠ some '%' ∧ l.isSkippable = false := by
-  have hg := (root_lines (cp := o.compactListIndent) ho.indent v hv).1
-  refine ⟨_, emit_eq_layout ho hf v hv, toLines_render _ hg, ?_⟩
-  intro l hl
-  rw [toLines_render _ hg] at hl
-  have h := hg l hl
-  exact ⟨(goodLine_not_marker h).1, (goodLine_not_marker h).2,
-    goodLine_head_ne h '%' (by decide) (by decide) (by decide) (by decide) (by decide) (by decide), goodLine_notSkippable h⟩
+  obtain ⟨t, he, hl, hm⟩ := emit_single_document ho hf v hv
+  rw [safeToks_plain hq ht] at hl hm
+  have hl' : toLines t = layRoot plainToks o.indentStep o.compactListIndent v := by simpa [prologueLines, hy] using hl
+  exact ⟨t, he, hl', fun l h => hm l (hl' ▸ h)⟩
+
+/-! ## the composition C12 ∘ C13: arbitrary strings, the crate's own scalar-text functions -/
+
+/-- (T) The contracts hold for the crate's own scalar-text functions (`implFns`: the transcription of
+`ser_quoting.rs`, `write_quoted`, the key sink) on the class `implPred o`: EVERY string as a mapping key or
+as the name of a variant with data, every string leaf for which `serialize_str` selects no block style
+(every string under `quote_all`; otherwise no line break, and not longer than `folded_wrap_chars` if it
+would be written plain), every unit variant (under `tagged_enums`: `!!Enum variant`, the enum name an ASCII
+identifier) — written plain, single-quoted or double-quoted as the crate decides (`genToks`) — except, under
+`yaml_12`, the YAML 1.1 boolean words the option leaves plain. -/
+theorem impl_contracts (o : Opts) :
+    WriteContract o implFns (implPred o) (genToks o implFns) ∧ ReadContract (implPred o) (genToks o implFns) :=
+  ⟨impl_write, impl_read o⟩
+
+/-- (T) the emitter invariant for arbitrary strings -/
+theorem emit_layout_strings_partial (ho : FragOpts o) (v : SVal) (hv : inFragP (implPred o) v = true) :
+    emit o implFns v = .ok (prologue o ++ renderLines (layRoot (genToks o implFns) o.indentStep o.compactListIndent v)) :=
+  emit_layout_contract ho impl_write v hv
+
+/-- (T) C12 ∘ C13: every value of the fragment over arbitrary strings (`implPred o`), under every option
+vector with `indent_step ≥ 1` and `empty_as_braces` (`yaml_12`, `quote_all`, `compact_list_indent`,
+`prefer_block_scalars`, the folding thresholds arbitrary), serializes with the crate's own scalar-text
+functions to a text that reads back as exactly the value.  Excluded (visible in `implPred`): strings that
+get a block style (C12's `literal_roundtrip` / `auto_folded_roundtrip`), enum names that are no ASCII identifiers under
+`tagged_enums`, and under `yaml_12` the boolean words left plain (`yaml12_bool_word_counterexample`). -/
+theorem emit_roundtrip_strings_partial (ho : FragOpts o) (v : SVal) (hv : inFragP (implPred o) v = true) :
+    ∃ t, emit o implFns v = .ok t ∧ readDoc t = some (erase v) :=
+  emit_roundtrip_contract ho impl_write (impl_read o) v hv
+
+/-- (T) the same in the class that is easiest to read (`lineStrPred o`): ANY string without line breaks and
+not longer than `folded_wrap_chars` as a leaf or as the name of a unit variant, ANY string at all as a mapping
+key or as the name of a variant with data — except the YAML 1.1 boolean words where `yaml_12` leaves them
+plain, and enum names that are no ASCII identifiers under `tagged_enums`. -/
+theorem emit_roundtrip_line_strings_partial (ho : FragOpts o) (v : SVal) (hv : inFragP (lineStrPred o) v = true) :
+    ∃ t, emit o implFns v = .ok t ∧ readDoc t = some (erase v) :=
+  emit_roundtrip_strings_partial ho v (lineStr_impl hv)
+
+/-- (T) one document, arbitrary strings -/
+theorem emit_single_document_strings_partial (ho : FragOpts o) (v : SVal) (hv : inFragP (implPred o) v = true) :
+    ∃ t, emit o implFns v = .ok t ∧
+      toLines t = prologueLines o ++ layRoot (genToks o implFns) o.indentStep o.compactListIndent v ∧
+      ∀ l ∈ layRoot (genToks o implFns) o.indentStep o.compactListIndent v, isDocMarker l "---".toList = false ∧
+        isDocMarker l "...".toList = false ∧ l.text.head? ≠ some '%' ∧ l.isSkippable = false :=
+  emit_single_document_contract ho impl_write (impl_read o) v hv
+
+/-- (F, about the ASSUMPTION of the theorems on the safe class, not about the code) the safe-leaf contract
+`SafeContract` does not hold for the crate's own scalar-text functions: `infinity` is a safe string
+(`[a-z][a-z0-9]*`, not a reserved word) but since fix 1fdb06b the crate quotes whatever its own float reader
+accepts, `infinity` included.  The theorems over `SafeContract f` therefore say nothing about `implFns`
+itself; `emit_roundtrip_strings_partial` does (there `infinity` is simply one more quoted string). -/
+theorem implFns_not_safeContract : ¬ SafeContract implFns := by
+  intro h
+  have h1 := h.plain "infinity".toList (by decide)
+  have h2 : implFns.isPlainSafe "infinity".toList = false := by decide +kernel
+  rw [h2] at h1
+  exact Bool.noConfusion h1
 
 end
 
@@ -85,7 +204,8 @@ reference reader (= the real parser on these texts) reads the value back. -/
 
 /-- `yaml_12 = true` (repaired by fix 832e31b, found by this property: the directive used to be
 written without the `---` it requires and every document was rejected): the prologue is followed by
-the document start marker and the document reads back.  `yaml_12` is still outside the proved fragment. -/
+the document start marker and the document reads back.  `yaml_12` is inside the proved fragment now
+(`prologue`). -/
 example : emit { yaml12 := true } implFns (.int 7) = .ok "%YAML 1.2\n---\n7\n".toList ∧
     readDoc "%YAML 1.2\n---\n7\n".toList = some (.int 7) := ⟨rfl, rfl⟩
 
@@ -177,6 +297,32 @@ theorem empty_no_braces_counterexample :
     emit { emptyAsBraces := false } implFns (SVal.struct [("k".toList, .seq [])]) = .ok "k:\n".toList ∧
     readDoc "k:\n".toList = some (.map [(.str "k".toList, .null)]) := ⟨rfl, rfl⟩
 
+/-- (F) `yaml_12 = true` leaves the YAML 1.1 boolean words plain (the option's purpose; C12's residue
+`C12-yaml12-bool-word-plain`): a string value `yes` — and, whatever `quote_all` says, a string key `on` —
+reads back as a boolean.  This is the hypothesis `boolRisk` / `isBoolWord` in `implPred`. -/
+theorem yaml12_bool_word_counterexample :
+    emit { yaml12 := true } implFns (.str "yes".toList) = .ok "%YAML 1.2\n---\nyes\n".toList ∧
+    readDoc "%YAML 1.2\n---\nyes\n".toList = some (.bool true) ∧
+    emit { yaml12 := true, quoteAll := true } implFns (.map true [(.str "on".toList, .int 1)]) =
+      .ok "%YAML 1.2\n---\non: 1\n".toList ∧
+    readDoc "%YAML 1.2\n---\non: 1\n".toList = some (.map [(.bool true, .int 1)]) :=
+  ⟨rfl, by decide +kernel, rfl, by decide +kernel⟩
+
+/-- the composition at full strength: every string that gets no block style, under every option vector of
+the fragment -/
+def C13_Strings_Full : Prop :=
+  ∀ (o : Opts) (s : List Char), FragOpts o → autoBlock o implFns s = false →
+    ∃ t, emit o implFns (.str s) = .ok t ∧ readDoc t = some (.str s)
+
+/-- (F) … is false through the `yaml_12` boolean words only (`emit_roundtrip_strings_partial` has everything else) -/
+theorem C13_Strings_Full_false : ¬ C13_Strings_Full := by
+  intro h
+  obtain ⟨t, he, hr⟩ := h { yaml12 := true } "yes".toList ⟨by decide, rfl⟩ (by decide +kernel)
+  rw [yaml12_bool_word_counterexample.1] at he
+  cases he
+  rw [yaml12_bool_word_counterexample.2.1] at hr
+  exact absurd hr (by decide)
+
 /-- (F) the full statement does not hold for the code as it is. -/
 theorem C13_Full_false : ¬ C13_Full := by
   intro h
@@ -201,10 +347,69 @@ def sampleValue : SVal :=
                                (.str "plain".toList, .seq [.map false [(.map true [], .map true [])]])]),
     ("last".toList, .newtypeStruct (.tuple [.int 1, SVal.struct []]))]
 
-example : inFrag 80 sampleValue = true := by decide
-example : FragOpts ({} : Opts) := ⟨by decide, rfl, rfl, rfl, rfl⟩
+example : inFrag {} sampleValue = true := by decide
+example : inFrag { taggedEnums := true, quoteAll := true, foldedWrapCol := 5 } sampleValue = true := by decide
+example : FragOpts ({} : Opts) := ⟨by decide, rfl⟩
+example : FragOpts ({ yaml12 := true, indentStep := 3, compactListIndent := true } : Opts) := ⟨by decide, rfl⟩
+/-- `yaml_12` at work (model output; identical to the implementation's): the prologue, then the same layout;
+the safe leaf class excludes the YAML 1.1 boolean words, which `yaml_12` leaves plain (C12's residue) -/
+example : emit { yaml12 := true } implFns (SVal.struct [("k".toList, .seq [.int 1, .str "yes1".toList])]) =
+    .ok "%YAML 1.2\n---\nk:\n  - 1\n  - yes1\n".toList := by rfl
+example : isSafeStr "yes".toList = false ∧ isSafeStr "y".toList = false ∧ isSafeStr "off".toList = false := by decide
+example : FragOpts ({ quoteAll := true, yaml12 := true, indentStep := 4 } : Opts) := ⟨by decide, rfl⟩
+/-- `quote_all` at work (model output; identical to the implementation's): string values, unit variants and the
+names of variants with data in single quotes, string keys plain; and the reader on it -/
+example : emit { quoteAll := true, yaml12 := true } implFns (SVal.struct [("k".toList, .seq [.str "ab".toList,
+      .newtypeVariant "nv".toList (.str "x".toList), .unitVariant "e".toList "uv".toList]),
+      ("m".toList, .map true [(.seq [.str "q".toList], .str "yes1".toList)])]) =
+    .ok "%YAML 1.2\n---\nk:\n  - 'ab'\n  - 'nv': 'x'\n  - 'uv'\nm:\n  ? - 'q'\n  : 'yes1'\n".toList := by rfl
+example : readDoc "%YAML 1.2\n---\nk:\n  - 'ab'\n  - 'nv': 'x'\n  - 'uv'\nm:\n  ? - 'q'\n  : 'yes1'\n".toList =
+    some (erase (SVal.struct [("k".toList, .seq [.str "ab".toList,
+      .newtypeVariant "nv".toList (.str "x".toList), .unitVariant "e".toList "uv".toList]),
+      ("m".toList, .map true [(.seq [.str "q".toList], .str "yes1".toList)])])) := by decide +kernel
+/-- a value over arbitrary strings (the hypotheses of `emit_roundtrip_strings_partial` are satisfiable):
+key separators, comment signs, quotes, blanks at either end, empty strings, look-alikes of null / numbers /
+booleans / sequence entries, TAB and backslash, as leaves, keys, variant names and inside composite keys -/
+def stringsValue : SVal :=
+  SVal.struct [("a key".toList, .seq [.str "hello: world".toList, .str "it's # not a comment".toList, .str "".toList,
+      .str "- x".toList, .str "123".toList, .str "null".toList, .str "plain text".toList]),
+    ("yes".toList, .newtypeVariant "On".toList (.str " lead".toList)),
+    ("t\tab".toList, .map true [(.seq [.str "q\"uote".toList], .str "tr\\ail ".toList)])]
+
+example : inFragP (implPred {}) stringsValue = true := by decide +kernel
+example : inFragP (lineStrPred {}) stringsValue = true := by decide +kernel
+example : inFragP (lineStrPred { yaml12 := true, quoteAll := true, taggedEnums := true, indentStep := 1 })
+    (.seq [.str "yes".toList, .unitVariant "En".toList "no".toList, SVal.struct [("k e y".toList, .str "#".toList)]]) = true := by
+  decide +kernel
+example : inFragP (implPred { quoteAll := true, indentStep := 3 }) stringsValue = true := by decide +kernel
+/-- under `quote_all` strings with line breaks are in the class too (they are double-quoted) -/
+example : inFragP (implPred { quoteAll := true, yaml12 := true }) (.seq [.str "multi\nline\n".toList]) = true := by decide +kernel
+set_option maxRecDepth 4000 in
+/-- model output (identical to the implementation's) and the reader on it -/
+example : emit {} implFns stringsValue =
+    .ok "a key:\n  - \"hello: world\"\n  - \"it's # not a comment\"\n  - \"\"\n  - \"- x\"\n  - \"123\"\n  - \"null\"\n  - plain text\n\"yes\":\n  \"On\": \" lead\"\n\"t\\tab\":\n  ? - q\"uote\n  : \"tr\\\\ail \"\n".toList := by rfl
+set_option maxRecDepth 4000 in
+example : readDoc "a key:\n  - \"hello: world\"\n  - \"it's # not a comment\"\n  - \"\"\n  - \"- x\"\n  - \"123\"\n  - \"null\"\n  - plain text\n\"yes\":\n  \"On\": \" lead\"\n\"t\\tab\":\n  ? - q\"uote\n  : \"tr\\\\ail \"\n".toList =
+    some (erase stringsValue) := by decide +kernel
+/-- `tagged_enums` at work (model output; identical to the implementation's): a unit variant is `!!Enum variant`
+with the variant name written by the value rule (here quoted by `quote_all` / because it is a YAML 1.1 boolean
+word), and the reader on it -/
+example : emit { taggedEnums := true, quoteAll := true } implFns (SVal.struct [("k".toList, .seq [.unitVariant "En".toList "uv".toList]),
+      ("m".toList, .unitVariant "En".toList "y".toList)]) = .ok "k:\n  - !!En 'uv'\nm: !!En 'y'\n".toList := by rfl
+example : emit { taggedEnums := true } implFns (.seq [.unitVariant "Axis".toList "x".toList, .unitVariant "Axis".toList "Y".toList]) =
+    .ok "- !!Axis x\n- !!Axis \"Y\"\n".toList := by rfl
+example : readDoc "k:\n  - !!En 'uv'\nm: !!En 'y'\n".toList =
+    some (erase (SVal.struct [("k".toList, .seq [.unitVariant "En".toList "uv".toList]),
+      ("m".toList, .unitVariant "En".toList "y".toList)])) := by decide +kernel
+example : inFragP (implPred { taggedEnums := true }) (.seq [.unitVariant "Axis".toList "x".toList, .unitVariant "Axis".toList "Y".toList,
+    .newtypeVariant "Nv".toList (.unitVariant "My Enum".toList "a b".toList)]) = false := by decide +kernel
+example : inFragP (implPred { taggedEnums := true }) (.seq [.unitVariant "Axis".toList "x".toList, .unitVariant "Axis".toList "Y".toList,
+    .newtypeVariant "Nv".toList (.unitVariant "MyEnum".toList "a b".toList)]) = true := by decide +kernel
+/-- the token functions of the safe class under `quote_all` -/
+example : (safeToks { quoteAll := true }).str "ab".toList = "'ab'".toList ∧ (safeToks { quoteAll := true }).key "ab".toList = "ab".toList ∧
+    (safeToks {}).str "ab".toList = "ab".toList := by decide
 example : FragOpts ({ indentStep := 1, minFoldChars := 0, foldedWrapCol := 5, preferBlockScalars := false } : Opts) :=
-  ⟨by decide, rfl, rfl, rfl, rfl⟩
+  ⟨by decide, rfl⟩
 /-- composite keys at work (model output; identical to the implementation's), default step and step 4 -/
 example : emit {} implFns (.map true [(.seq [.int 1, .seq []], .seq [.int 2]),
       (SVal.struct [("x".toList, .int 1), ("z".toList, .int 2)], SVal.struct [("x".toList, .int 3)]),
@@ -213,18 +418,37 @@ example : emit {} implFns (.map true [(.seq [.int 1, .seq []], .seq [.int 2]),
 example : emit { indentStep := 4 } implFns (.seq [.map true [(.seq [.int 1, .seq []], .seq [.int 2]),
       (SVal.struct [("x".toList, .int 1), ("z".toList, .int 2)], SVal.struct [("x".toList, .int 3)])]]) =
     .ok "- ? - 1\n    - []\n  : - 2\n  ? x: 1\n    z: 2\n  : x: 3\n".toList := by rfl
-example : FragOpts ({ indentStep := 3, compactListIndent := true } : Opts) := ⟨by decide, rfl, rfl, rfl, rfl⟩
+example : FragOpts ({ indentStep := 3, compactListIndent := true } : Opts) := ⟨by decide, rfl⟩
 /-- `compact_list_indent` at work (model output; identical to the implementation's) -/
 example : emit { compactListIndent := true } implFns (SVal.struct [("a".toList, .seq [.int 1, SVal.struct [("b".toList, .seq [.int 2])]]),
       ("c".toList, .seq []), ("d".toList, .tupleVariant "tv".toList [.int 3])]) =
     .ok "a:\n- 1\n- b:\n  - 2\nc: []\nd:\n  tv:\n  - 3\n".toList := by rfl
-example : FragOpts ({ indentStep := 7 } : Opts) := ⟨by decide, rfl, rfl, rfl, rfl⟩
+example : FragOpts ({ indentStep := 7 } : Opts) := ⟨by decide, rfl⟩
 /-- the theorem at work for `indent_step = 3` and `1` (model output; identical to the implementation's) -/
 example : emit { indentStep := 3 } implFns (SVal.struct [("k".toList, .seq [.int 1, .seq [.none, SVal.struct [("a".toList, .int 1), ("b".toList, .tupleVariant "tv".toList [.int 2])]]])]) =
     .ok "k:\n   - 1\n   - - null\n     - a: 1\n       b:\n          tv:\n             - 2\n".toList := by rfl
 example : emit { indentStep := 1 } implFns (SVal.struct [("k".toList, .seq [.int 1, .seq [.none, SVal.struct [("a".toList, .int 1), ("b".toList, .tupleVariant "tv".toList [.int 2])]]])]) =
     .ok "k:\n - 1\n - - null\n   - a: 1\n     b:\n      tv:\n       - 2\n".toList := by rfl
-/-- the crate's scalar functions on sample safe strings (the contract itself is C12's) -/
+/-- the safe-leaf contract is satisfiable: the crate's functions, made to accept the whole safe class (they
+accept all of it except `infinity`, see `implFns_not_safeContract`) -/
+def safeFns : ScalarFns :=
+  { implFns with
+    isPlainSafe := fun s => isSafeStr s || implFns.isPlainSafe s
+    isPlainValueSafe := fun s y fl => isSafeStr s || implFns.isPlainValueSafe s y fl
+    isUnsafePlainShape := fun s => !isSafeStr s && implFns.isUnsafePlainShape s }
+example : SafeContract safeFns :=
+  ⟨fun s h => by simp [safeFns, h], fun s y fl h => by simp [safeFns, h], fun s h => by simp [safeFns, h]⟩
+/-- the contracts of the general theorems are satisfiable (by the crate's own functions, `impl_contracts`; by
+any functions with the safe-leaf contract, `safe_write` / `safe_read`) on non-trivial values -/
+example : ∃ (P : LeafPred) (T : Toks), WriteContract { quoteAll := true } implFns P T ∧ ReadContract P T ∧
+    inFragP P stringsValue = true :=
+  ⟨_, _, (impl_contracts _).1, (impl_contracts _).2, by decide +kernel⟩
+example : WriteContract { taggedEnums := true } safeFns (safePred { taggedEnums := true }) (safeToks { taggedEnums := true }) ∧
+    ReadContract (safePred { taggedEnums := true }) (safeToks { taggedEnums := true }) ∧
+    inFragP (safePred { taggedEnums := true }) sampleValue = true :=
+  ⟨safe_write ⟨fun s h => by simp [safeFns, h], fun s y fl h => by simp [safeFns, h], fun s h => by simp [safeFns, h]⟩,
+   safe_read _, by decide⟩
+/-- the crate's scalar functions on sample safe strings -/
 example : implFns.isPlainSafe "demo".toList = true ∧ implFns.isPlainValueSafe "demo".toList false true = true ∧
     implFns.isPlainValueSafe "x1".toList true false = true := by decide
 /-- the model output for a small member of the fragment, and the reader on it -/
